@@ -184,12 +184,18 @@ func NewPipeFromBufferPool(pool *sync.Pool) *Pipe {
 	return p
 }
 
-// Release() releases underlying fixed buffer
-func (p *Pipe) Release(pool *sync.Pool) {
+// Release() releases underlying fixed buffer. It returns the number of
+// unread bytes that were dropped with the buffer.
+func (p *Pipe) Release(pool *sync.Pool) int {
 	p.mu.Lock()
 	defer p.mu.Unlock()
 
+	if p.b == nil {
+		return 0
+	}
+	n := p.b.Len()
 	p.b.Reset()
 	pool.Put(p.b)
 	p.b = nil
+	return n
 }
